@@ -323,10 +323,61 @@ def r5_dedupe(ctx, res):
         res.find(key, ul.module.loc(ul.node), 'unique_list is no longer an order-preserving (dict based) de-duplication')
 
 
+TRAVERSAL_MODULES = ('_core', 'taxonomy', 'ic', 'similarity')
+
+
+def r6_visited_by_entity(ctx, res):
+    """visited sets of the traversals hold the entities themselves: every placeholder synset that an expand lexicon
+    contributes has the same `.id` ('*INFERRED*') and `._id` (NON_ROWID), only its hash distinguishes it (by ILI), so a
+    visited set keyed by id stops a closure / path at the second placeholder."""
+    n = 0
+    for ms in TRAVERSAL_MODULES:
+        m = ctx.repo.mod(ms)
+        for f in m.funcs.values():
+            has_loop = any(isinstance(x, ast.While) for x in walk_no_nested(f.node))
+            setnames = set()
+            for x in walk_no_nested(f.node):
+                if isinstance(x, (ast.Assign, ast.AnnAssign)) and getattr(x, 'value', None) is not None:
+                    v = x.value
+                    is_set = isinstance(v, (ast.Set, ast.SetComp)) or (isinstance(v, ast.Call) and norm(v.func) in ('set', 'frozenset')) \
+                        or (isinstance(x, ast.AnnAssign) and norm(x.annotation).startswith(('set[', 'Set[')))
+                    if is_set:
+                        for t in (x.targets if isinstance(x, ast.Assign) else [x.target]):
+                            if isinstance(t, ast.Name):
+                                setnames.add(t.id)
+            if not setnames and not has_loop:
+                continue
+            key = f'visited-key:{f.key}'
+            n += 1
+            res.inst(key, m.loc(f.node), f'sets {sorted(setnames)}')
+
+            def is_idkey(e):
+                return isinstance(e, ast.Attribute) and e.attr in ('id', '_id') and not (isinstance(e.value, ast.Name) and e.value.id == 'self' and not has_loop)
+            for x in walk_no_nested(f.node):
+                bad = None
+                if isinstance(x, ast.Compare) and len(x.ops) == 1 and isinstance(x.ops[0], (ast.In, ast.NotIn)) and is_idkey(x.left) \
+                        and isinstance(x.comparators[0], ast.Name) and (x.comparators[0].id in setnames or has_loop):
+                    bad = x
+                elif isinstance(x, ast.Call) and isinstance(x.func, ast.Attribute) and x.func.attr == 'add' and x.args and is_idkey(x.args[0]) \
+                        and isinstance(x.func.value, ast.Name) and x.func.value.id in setnames:
+                    bad = x
+                elif has_loop and isinstance(x, ast.Set) and any(is_idkey(e) for e in x.elts) \
+                        and not (isinstance(getattr(x, '_parent', None), ast.Call) and x in x._parent.args):
+                    bad = x
+                if bad is not None:
+                    res.find(key, m.loc(bad), f'{f.qualname} keys a visited set by an id (`{norm(bad)}`): all inferred placeholder synsets share '
+                                              f"id '*INFERRED*' and rowid NON_ROWID, so the traversal treats the second placeholder as already "
+                                              f'visited and loses everything behind it')
+                    break
+    if n < 4:
+        raise AnalysisError('traversal functions with visited sets not found')
+
+
 RULES = [
     ('C11-R1', r1_termination, 6),
     ('C11-R2', r2_sibling_relation_queries, 10),
     ('C11-R3', r3_relation_identity, 6),
     ('C11-R4', r4_importer_split, 3),
     ('C11-R5', r5_dedupe, 6),
+    ('C11-R6', r6_visited_by_entity, 4),
 ]
